@@ -56,4 +56,12 @@ CHECKS.update({
             "One genuine finding (cancel during a retry delay loses the retry) recorded.", ENGINE_TECH),
 })
 
+SCHED_TECH = "stateless exhaustive interleaving exploration of the real async code on a virtual asyncio loop (explorer-chosen starts, releases, cancellations, timer firings, done-set orders)"
+CHECKS.update({
+    "C25": ("6/C25", "2-4 tasks on overlapping keys started at explorer-chosen points, up to 2 cancellations at any quiescent point (also in the same loop iteration as a release, both orders) x all interleavings of the real KeyedLock; occupancy per key, no waiting without a holder, every non-cancelled task enters, no lock state left.",
+            "asyncio delivers cancellation only at suspension points; uncontended Lock.acquire does not suspend.", SCHED_TECH),
+    "C29": ("6/C29", "merge_generators over 1-3 sources (<=3 items, optional failing source) x all release orders, simultaneous completions and all iteration orders of the done set; debounced_sorted_prefix over 2-5 items released at explorer-chosen points relative to the debounce / max-window timers incl. the same loop iteration as the window closing.",
+            "Fix 28a93c4 repaired the late-item-overtakes-burst defect this check found.", SCHED_TECH),
+})
+
 NOT_APPLICABLE = {}
